@@ -4,6 +4,7 @@ import (
 	"fmt"
 	"go/token"
 	"go/types"
+	"sort"
 	"strings"
 
 	"golang.org/x/tools/go/ssa"
@@ -27,6 +28,8 @@ func runC09(c *core.Ctx) {
 	c.RuleDoc("R09.4", "root prefix test respects element boundaries")
 	c.RuleDoc("R09.5", "standard os errors pass through the translator")
 	c.RuleDoc("R09.6", "FromOSPath requires an absolute path")
+	c.RuleDoc("R09.13", "the separator conversions use the separator they are given: no unused separator parameter, no literal backslash")
+	c.RuleDoc("R09.14", "every path field of an error rebuilt by the translator is passed through relPath on every path")
 	c.RuleDoc("R09.11", "os.relPath never returns a path with a leading separator")
 	c.RuleDoc("R09.12", "Sub roots are joined with path.Join on validated names (= R07.1)")
 	c.RuleDoc("R09.10", "a Sub view of the OS-backed FS never stores the root \".\"")
@@ -55,6 +58,8 @@ func runC09(c *core.Ctx) {
 		r09FoldThenCut(c, p)
 		r09NoDotRoot(c, p)
 		r09RelPathUnrooted(c, p)
+		r09SeparatorIsAParameter(c, p)
+		r09EveryPathFieldTranslated(c, p)
 		// R09.12 (= R07.1): roots are joined with path.Join on validated names, never glued with "+"
 		{
 			va := newValidAnalysis(p)
@@ -75,6 +80,8 @@ func runC09(c *core.Ctx) {
 	c.Floor("R09.7", 1)
 	c.Floor("R09.8", 2)
 	c.Floor("R09.11", 1)
+	c.Floor("R09.13", 2)
+	c.Floor("R09.14", 3)
 	c.Floor("R09.12", 5)
 }
 
@@ -728,4 +735,145 @@ func r09RelPathUnrooted(c *core.Ctx, p *load.Program) {
 	}
 	c.Check(bad == "" && n > 0, "R09.11", "os.relPath|result-has-no-leading-separator", p.Pos(fn.Pos()), "every computed result went through TrimPrefix(_, \"/\")",
 		fmt.Sprintf("os.relPath returns at %s a string that did not pass strings.TrimPrefix(_, \"/\"): for an FS without a Sub root the OS root already ends in the separator, a cut of root+separator removes nothing, and errors carry the absolute OS path (\"/tmp/x/missing\") instead of an FS-relative name", bad))
+}
+
+// r09SeparatorIsAParameter (R09.13): package os converts between "/" and the OS separator in functions that receive
+// the separator as a rune parameter (so that both conventions can be exercised on one OS). Every such parameter is
+// used, and no string function of the package is called with a literal backslash: where the separator is '/', a
+// backslash is an ordinary byte of a file name and FromOSPath("/root/a\\b") must answer "a\\b", not "a/b".
+func r09SeparatorIsAParameter(c *core.Ctx, p *load.Program) {
+	for _, fn := range pkgFuncs(p, "os") {
+		if fn.Parent() != nil || fn.Blocks == nil {
+			continue
+		}
+		for _, prm := range fn.Params {
+			bt, ok := prm.Type().Underlying().(*types.Basic)
+			if !ok || bt.Kind() != types.Int32 || !strings.Contains(strings.ToLower(prm.Name()+" separator"), "separator") {
+				continue
+			}
+			if bt.Kind() != types.Int32 {
+				continue
+			}
+			key := fname(fn) + "|separator-parameter-used"
+			used := prm.Referrers() != nil && len(*prm.Referrers()) > 0
+			c.Check(used, "R09.13", key, p.Pos(fn.Pos()), "the separator parameter is used",
+				fmt.Sprintf("%s ignores the separator it is given: the conversion is the same for both conventions, so under the '/' convention a backslash inside a file name is turned into a separator (FromOSPath of /root/a\\b answers a/b, a different file) or a name with one is refused", fname(fn)))
+		}
+		ord := ordinals{}
+		if p.Target.GOOS == "windows" {
+			continue // filepath.Separator itself folds to a backslash constant there
+		}
+		ssax.Instrs(fn, func(ins ssa.Instruction) {
+			cl, ok := ins.(*ssa.Call)
+			if !ok {
+				return
+			}
+			callee := ssax.StaticCallee(cl)
+			if callee == nil || callee.Pkg == nil || callee.Pkg.Pkg.Path() != "strings" {
+				return
+			}
+			for _, a := range cl.Call.Args {
+				if k, ok := a.(*ssa.Const); ok && k.Value != nil && k.Value.ExactString() == `"\\"` {
+					c.Bad("R09.13", fname(fn)+"|"+ord.next("literal-backslash"), p.Pos(cl.Pos()), fmt.Sprintf("%s calls strings.%s with a literal backslash: which byte separates path elements is a parameter of the conversion (a backslash is an ordinary name byte where the separator is '/')", fname(fn), callee.Name()))
+				}
+			}
+		})
+	}
+}
+
+// r09EveryPathFieldTranslated (R09.14): in the function of package os that rebuilds *PathError / *LinkError values
+// with FS-relative names (the one that calls relPath), every string field of an error struct it allocates — Path, Old,
+// New — is, on every path to the return, last stored from a relPath call. A field left as copied from the os error
+// (Old of a failed symlink, say) carries the absolute OS path out of the package: not a valid FS name, and it names
+// the root.
+func r09EveryPathFieldTranslated(c *core.Ctx, p *load.Program) {
+	rel := p.Func("os", "relPath")
+	if rel == nil {
+		c.Hard("anchor: os.relPath")
+		return
+	}
+	n := 0
+	for _, fn := range pkgFuncs(p, "os") {
+		if fn.Blocks == nil || fn == rel {
+			continue
+		}
+		calls := false
+		ssax.Instrs(fn, func(ins ssa.Instruction) {
+			if cl, ok := ins.(*ssa.Call); ok && ssax.StaticCallee(cl) == rel {
+				calls = true
+			}
+		})
+		if !calls {
+			continue
+		}
+		// (alloc, field) pairs: string fields of error structs allocated here
+		type slot struct {
+			a *ssa.Alloc
+			f string
+		}
+		slots := map[slot]bool{}
+		ssax.Instrs(fn, func(ins ssa.Instruction) {
+			st, ok := ins.(*ssa.Store)
+			if !ok {
+				return
+			}
+			fa, ok := st.Addr.(*ssa.FieldAddr)
+			if !ok || !isStr(st.Val.Type()) {
+				return
+			}
+			a, ok := fa.X.(*ssa.Alloc)
+			if !ok {
+				return
+			}
+			switch ssax.FieldName(fa) {
+			case "Path", "Old", "New":
+				slots[slot{a, ssax.FieldName(fa)}] = true
+			}
+		})
+		var list []slot
+		for sl := range slots {
+			list = append(list, sl)
+		}
+		sort.Slice(list, func(i, j int) bool {
+			if list[i].a.Pos() != list[j].a.Pos() {
+				return list[i].a.Pos() < list[j].a.Pos()
+			}
+			return list[i].f < list[j].f
+		})
+		ord := ordinals{}
+		for _, sl := range list {
+			n++
+			key := fname(fn) + "|" + ord.next("translated:"+sl.f)
+			bad := ""
+			stored := false
+			ssax.EnumPaths(fn, fn.Blocks[0], 0, ssax.NewPathState(), ssax.PathHooks{
+				Instr: func(ps *ssax.PathState, ins ssa.Instruction) {
+					st, ok := ins.(*ssa.Store)
+					if !ok {
+						return
+					}
+					fa, ok := st.Addr.(*ssa.FieldAddr)
+					if !ok || fa.X != ssa.Value(sl.a) || ssax.FieldName(fa) != sl.f {
+						return
+					}
+					stored = true
+					ps.Counts["set"] = 1
+					ps.Counts["ok"] = 0
+					if cl, isCall := ps.Resolve(st.Val).(*ssa.Call); isCall && ssax.StaticCallee(cl) == rel {
+						ps.Counts["ok"] = 1
+					}
+				},
+				End: func(ps *ssax.PathState, last ssa.Instruction) {
+					if _, isRet := last.(*ssa.Return); isRet && ps.Counts["set"] == 1 && ps.Counts["ok"] == 0 && bad == "" {
+						bad = p.Pos(last.Pos())
+					}
+				},
+			})
+			c.Check(stored && bad == "", "R09.14", key, p.Pos(sl.a.Pos()), "the field is last stored from relPath on every path",
+				fmt.Sprintf("%s builds an error whose %s field is, on a path to the return at %s, not the result of relPath: the absolute OS path (with the root) leaves package os in an error — it is no valid FS name and differs between a view and its parent", fname(fn), sl.f, bad))
+		}
+	}
+	if n == 0 {
+		c.Hard("anchor: the error translator of package os (a function that calls relPath and rebuilds error values)")
+	}
 }
